@@ -21,6 +21,9 @@
 //! Everything runs in a child process of the harness with a watchdog: a hang (deadlock on a real lock)
 //! or an abort is reported with the case that was running.
 
+#[path = "c13_lazy.rs"]
+mod lazy;
+
 use crate::c12::doc::*;
 use crate::c12::{calls_text, cfg_text, do_call, run_config, Call, Mode, T_CAT, T_DICT, T_I32, T_OBJSTM, T_PAGES, T_PRIM, T_STREAM};
 use crate::driver::Driver;
@@ -49,6 +52,12 @@ pub enum Pos {
     Waiting(u64),
     Storing(u64),
     Popping(u64),
+    /// entry of `Lazy::load` on cell c
+    LEnter(u64),
+    /// the initialiser of cell c returned; the once-cell stores next
+    LStore(u64),
+    /// the step did not come back: the thread blocks inside the library at a place without a yield point
+    Blocked,
     Done,
     Panicked,
     Aborted,
@@ -63,12 +72,15 @@ impl Pos {
             Pos::Waiting(r) => format!("w{}", r),
             Pos::Storing(r) => format!("s{}", r),
             Pos::Popping(r) => format!("o{}", r),
+            Pos::LEnter(c) => format!("le{}", c),
+            Pos::LStore(c) => format!("ls{}", c),
+            Pos::Blocked => "b".into(),
             Pos::Done => "d".into(),
             Pos::Panicked => "x".into(),
             Pos::Aborted => "a".into(),
         }
     }
-    fn is_final(&self) -> bool {
+    pub(crate) fn is_final(&self) -> bool {
         matches!(self, Pos::Done | Pos::Panicked | Pos::Aborted)
     }
     /// does the step from here touch state shared with other threads (own guard stacks)?
@@ -77,7 +89,16 @@ impl Pos {
     }
 }
 
-struct AbortMarker;
+pub(crate) struct AbortMarker;
+
+/// what the hook talks to: the scheduler of the current run
+pub(crate) trait Yielder: Send + Sync {
+    fn yield_at(&self, me: usize, pos: Pos, log: bool);
+    /// a non-yielding notification (`LazyInit`, `LazyExit`)
+    fn note(&self, _me: usize, _point: Point, _cell: u64) {}
+    /// cell number of the once-cell at this address
+    fn cell_of(&self, _addr: u64) -> u64 { u64::MAX }
+}
 
 #[derive(Clone, Copy, PartialEq)]
 enum SchedMode {
@@ -101,7 +122,13 @@ pub struct Sched {
 }
 
 thread_local! {
-    static ME: RefCell<Option<(usize, Arc<Sched>)>> = RefCell::new(None);
+    pub(crate) static ME: RefCell<Option<(usize, Arc<dyn Yielder>)>> = RefCell::new(None);
+}
+
+impl Yielder for Sched {
+    fn yield_at(&self, me: usize, pos: Pos, log: bool) {
+        Sched::yield_at(self, me, pos, log)
+    }
 }
 
 impl Sched {
@@ -210,7 +237,7 @@ impl Sched {
     }
 }
 
-fn yield_here(pos: Pos) {
+pub(crate) fn yield_here(pos: Pos) {
     yield_log(pos, true)
 }
 
@@ -231,6 +258,17 @@ fn hook(point: Point, key: PlainRef) {
         Point::AfterPush => yield_here(Pos::Pushed(key.id)),
         Point::AfterCache => {}
         Point::BeforePop => yield_here(Pos::Popping(key.id)),
+        Point::LazyEnter | Point::LazyInit | Point::LazyStore | Point::LazyExit => {
+            let me = ME.with(|m| m.borrow().clone());
+            if let Some((i, s)) = me {
+                let c = s.cell_of(key.id);
+                match point {
+                    Point::LazyEnter => s.yield_at(i, Pos::LEnter(c), true),
+                    Point::LazyStore => s.yield_at(i, Pos::LStore(c), true),
+                    p => s.note(i, p, c),
+                }
+            }
+        }
     }
 }
 
@@ -366,7 +404,7 @@ where
     OC: Cache<Result<AnySync, Arc<PdfError>>>,
     SC: Cache<Result<Arc<[u8]>, Arc<PdfError>>>,
 {
-    ME.with(|m| *m.borrow_mut() = Some((me, sched.clone())));
+    ME.with(|m| *m.borrow_mut() = Some((me, sched.clone() as Arc<dyn Yielder>)));
     let r = catch_unwind(AssertUnwindSafe(|| {
         sched.wait_first(me);
         let own = file.resolver();
@@ -774,7 +812,7 @@ fn tree_doc(cyclic: bool) -> GDoc {
         GObj { id: 6, kind: GKind::Int(1006), place: GPlace::Direct },
         GObj { id: 7, kind: GKind::Int(1007), place: GPlace::Direct },
     ];
-    GDoc { size: 9, root: 1, tolerant: cyclic, objs, xref_stream: false }
+    GDoc { size: 9, root: 1, tolerant: cyclic, objs, xref_stream: false, annots: vec![] }
 }
 
 fn stream_witness(driver: &Driver, or: &mut Oracle, progress: &dyn Fn(&Value)) -> RStream {
@@ -960,6 +998,10 @@ fn child_work(driver: &Driver, seed: u64, thorough: bool, progress_path: &str, o
                 for _ in 0..30 { rep.streams.push(stream_random(driver, "c13.os", SchedMode::Token, seed, case, case + 1, &mut or, &progress)); }
             }
             "c13.stress" => rep.oracles.push(oracle_stress(seed, case, case + 1, 50, &progress)),
+            "c13.lazy.random" => rep.streams.push(lazy::stream_lazy_random(driver, seed, case, case + 1, &mut or, &progress)),
+            "c13.lazy.stress" => rep.oracles.push(lazy::oracle_lazy_stress(seed, case, case + 1, 50, &progress)),
+            "c13.lazy.witness" => rep.streams.push(lazy::stream_lazy_witness(driver, true, &mut or, &progress)),
+            "c13.registries" => rep.oracles.push(lazy::oracle_registries()),
             _ => rep.streams.push(stream_witness(driver, &mut or, &progress)),
         }
         rep.oracles.push(or);
@@ -968,17 +1010,25 @@ fn child_work(driver: &Driver, seed: u64, thorough: bool, progress_path: &str, o
     let mut wor = Oracle::new("c13.witness");
     rep.streams.push(stream_witness(driver, &mut wor, &progress));
     rep.oracles.push(wor);
+    let t0 = Instant::now();
+    let mut lor = Oracle::new("c13.lazy");
+    rep.streams.push(lazy::stream_lazy_witness(driver, thorough, &mut lor, &progress));
+    rep.streams.push(lazy::stream_lazy_random(driver, seed, 0, if thorough { 20_000 } else { 600 }, &mut lor, &progress));
+    rep.oracles.push(lor);
+    rep.oracles.push(lazy::oracle_lazy_stress(seed, 0, if thorough { 20_000 } else { 400 }, 1, &progress));
+    rep.oracles.push(lazy::oracle_registries());
+    rep.extra.insert("seconds_lazy".into(), json!(t0.elapsed().as_secs_f64()));
     let mut or = Oracle::new("c13.sequential");
     let t0 = Instant::now();
-    rep.streams.push(stream_exhaustive(driver, seed, 0, if thorough { 40 } else { 6 }, if thorough { 20_000 } else { 2000 }, if thorough { u64::MAX } else { 20 }, &mut or, &progress));
+    rep.streams.push(stream_exhaustive(driver, seed, 0, if thorough { 40 } else { 5 }, if thorough { 20_000 } else { 1200 }, if thorough { u64::MAX } else { 10 }, &mut or, &progress));
     rep.extra.insert("seconds_exhaustive".into(), json!(t0.elapsed().as_secs_f64()));
     let t0 = Instant::now();
-    rep.streams.push(stream_reduced(driver, seed, 0, if thorough { 200 } else { 30 }, if thorough { 1500 } else { 150 }, if thorough { u64::MAX } else { 25 }, &mut or, &progress));
+    rep.streams.push(stream_reduced(driver, seed, 0, if thorough { 200 } else { 20 }, if thorough { 1500 } else { 150 }, if thorough { u64::MAX } else { 10 }, &mut or, &progress));
     rep.extra.insert("seconds_reduced".into(), json!(t0.elapsed().as_secs_f64()));
-    rep.streams.push(stream_random(driver, "c13.random", SchedMode::Baton, seed, 0, if thorough { 20_000 } else { 1500 }, &mut or, &progress));
-    rep.streams.push(stream_random(driver, "c13.os", SchedMode::Token, seed, 0, if thorough { 10_000 } else { 600 }, &mut or, &progress));
+    rep.streams.push(stream_random(driver, "c13.random", SchedMode::Baton, seed, 0, if thorough { 20_000 } else { 1000 }, &mut or, &progress));
+    rep.streams.push(stream_random(driver, "c13.os", SchedMode::Token, seed, 0, if thorough { 10_000 } else { 400 }, &mut or, &progress));
     rep.oracles.push(or);
-    rep.oracles.push(oracle_stress(seed, 0, if thorough { 20_000 } else { 1500 }, 1, &progress));
+    rep.oracles.push(oracle_stress(seed, 0, if thorough { 20_000 } else { 1000 }, 1, &progress));
     rep
 }
 
